@@ -12,7 +12,8 @@ Definition sinter (a b : list string) : list string := filter (fun x => smem x b
 Definition sdiff (a b : list string) : list string := filter (fun x => negb (smem x b)) a.
 
 (* the sets the formulas range over (names as printed by QN.__str__) *)
-Record sets := { s_basic : list string; s_composite : list string; s_live_in : list string; s_live_out : list string }.
+Record sets := { s_basic : list string; s_composite : list string; s_live_in : list string; s_live_out : list string;
+                 s_globals : list string; s_nonlocals : list string }.
 
 Definition set_of (B : blockvars_tpl) (r : sets) (v : string) : option (list string) :=
   if String.eqb v (bv_basic B) then Some (s_basic r)
@@ -24,6 +25,7 @@ Definition set_of (B : blockvars_tpl) (r : sets) (v : string) : option (list str
 Fixpoint interp (B : blockvars_tpl) (r : sets) (e : sexp) : option (list string) :=
   match e with
   | XVar v => set_of B r v
+  | XFn f => if String.eqb f "globals" then Some (s_globals r) else if String.eqb f "nonlocals" then Some (s_nonlocals r) else None
   | XUnion a b => match interp B r a, interp B r b with Some x, Some y => Some (sunion x y) | _, _ => None end
   | XInter a b => match interp B r a, interp B r b with Some x, Some y => Some (sinter x y) | _, _ => None end
   | XDiff a b => match interp B r a, interp B r b with Some x, Some y => Some (sdiff x y) | _, _ => None end
